@@ -107,16 +107,66 @@ def patched(oracle):
         np.random.choice, np.random.shuffle = oc, os_
 
 
+class Hang(BaseException):
+    """raised by the watchdog when an implementation call does not return"""
+
+
+_LIMIT_ACTIVE = [False]
+_HANGS = {}
+CALL_LIMIT = 20.0
+
+
+@contextlib.contextmanager
+def time_limit(seconds):
+    """watchdog for implementation calls (SIGALRM; outermost limit wins, nested ones are no-ops)"""
+    import signal
+    import threading
+    if _LIMIT_ACTIVE[0] or threading.current_thread() is not threading.main_thread():
+        yield
+        return
+
+    def handler(signum, frame):
+        raise Hang()
+    old = signal.signal(signal.SIGALRM, handler)
+    signal.setitimer(signal.ITIMER_REAL, seconds)
+    _LIMIT_ACTIVE[0] = True
+    try:
+        yield
+    finally:
+        signal.setitimer(signal.ITIMER_REAL, 0)
+        signal.signal(signal.SIGALRM, old)
+        _LIMIT_ACTIVE[0] = False
+
+
 def call(fn, *args, draws=(), perm=None, **kw):
-    """Run fn under the oracle. Returns ("Ok", value) | ("ValueError",) | ("Raise", typename, msg)."""
+    """Run fn under the oracle and a watchdog. Returns ("Ok", value) | ("ValueError", msg) | ("Raise", typename, msg)."""
     o = Oracle(draws, perm)
+    name = getattr(fn, "__qualname__", "call")
+    if _HANGS.get(name, 0) >= 2:      # circuit breaker: this entry point already failed to return twice
+        return ("Raise", "Hang", "not run: %s did not return on two earlier inputs" % name)
     with patched(o):
         try:
-            return ("Ok", fn(*args, **kw))
+            with time_limit(CALL_LIMIT if not _HANGS else 5.0):
+                return ("Ok", fn(*args, **kw))
         except ValueError as e:
             return ("ValueError", str(e)[:80])
+        except Hang:
+            _HANGS[name] = _HANGS.get(name, 0) + 1
+            return ("Raise", "Hang", "no result after %.0f s" % CALL_LIMIT)
         except Exception as e:  # noqa: BLE001
             return ("Raise", type(e).__name__, str(e)[:120])
+
+
+class ImplFailure(Exception):
+    pass
+
+
+def must(fn, *args, **kw):
+    """a direct implementation call that is expected to succeed (used while building correspondence cases)"""
+    r = call(fn, *args, **kw)
+    if r[0] != "Ok":
+        raise ImplFailure("%s%r -> %s" % (getattr(fn, "__name__", "call"), args, r))
+    return r[1]
 
 
 # ======================================================================================
@@ -193,6 +243,16 @@ def ref_partitions(n, maxpart=None):
         for rest in ref_partitions(n - j, j):
             out.append([j] + rest)
     return out
+
+
+def box(d, xs):
+    """the node list in the container the case asks for (list by default; tuple / numpy array for integer labels)"""
+    kind = d.get("container", "list")
+    if kind == "tuple":
+        return tuple(xs)
+    if kind == "array" and xs and all(isinstance(x, int) for x in xs):
+        return np.array(xs)
+    return list(xs)
 
 
 def ns(d):
@@ -276,10 +336,10 @@ def pred_event_card(d):
     except (OverflowError, ValueError):
         same = False
     # internal consistency, in exact Python ints: the event is the disjoint union of its admissible orbits
-    try:
-        parts_sum = sum(int(SI.orbit_cardinality(list(o), m)) for o in SI.orbits(k) if max(o) <= c)
-    except Exception as ex:  # noqa: BLE001
-        return [("orbit_cardinality:raises", "orbit_cardinality raised %r while summing the orbits of event (%d,%d,%d)" % (ex, k, c, m))]
+    rs = call(lambda: sum(int(SI.orbit_cardinality(list(o), m)) for o in SI.orbits(k) if max(o) <= c))
+    if rs[0] != "Ok":
+        return [("orbit_cardinality:raises", "orbit_cardinality raised %r while summing the orbits of event (%d,%d,%d)" % (rs[1:], k, c, m))]
+    parts_sum = rs[1]
     if same and parts_sum == e:
         return []
     if not same and parts_sum == e:
@@ -475,18 +535,19 @@ def pred_fvs(d):
     samples = d["samples"]
     out = []
     n = len(samples)
+    arr = (lambda x: [np.array(s0) for s0 in x]) if d.get("as_array") else copy.deepcopy
     if "orbits" in d:
         items = d["orbits"]
-        r = call(SI.feature_vector_orbits_sampling, copy.deepcopy(samples), copy.deepcopy(items))
+        r = call(SI.feature_vector_orbits_sampling, arr(samples), copy.deepcopy(items))
         bad = len(items) == 0 or any(min(o) < 0 for o in items if o)
         name = "feature_vector_orbits_sampling"
         ref = [Fraction(sum(1 for smp in samples if sorted([x for x in smp if x], reverse=True) == list(o)), n) for o in items] if not bad else None
     else:
         items, c = d["events"], d["maxc"]
         if c == 2 and d.get("dflt"):
-            r = call(SI.feature_vector_events_sampling, copy.deepcopy(samples), list(items))
+            r = call(SI.feature_vector_events_sampling, arr(samples), list(items))
         else:
-            r = call(SI.feature_vector_events_sampling, copy.deepcopy(samples), list(items), c)
+            r = call(SI.feature_vector_events_sampling, arr(samples), list(items), c)
         bad = len(items) == 0 or min(items) < 0 or c < 0
         name = "feature_vector_events_sampling"
         ref = [Fraction(sum(1 for smp in samples if sum(smp) == k and max(smp) <= c), n) for k in items] if not bad else None
@@ -521,6 +582,21 @@ def pred_orbits(d):
         out.append(("orbits:not-a-partition", "orbits(%d) yields a list that is not a non-increasing positive partition of %d" % (n, n)))
     if set(gs) != {tuple(o) for o in ref}:
         out.append(("orbits:incomplete", "orbits(%d) yields %d distinct lists, there are %d partitions" % (n, len(set(gs)), len(ref))))
+    return out
+
+
+def pred_s2o(d):
+    """sample_to_orbit / sample_to_event on one sample"""
+    smp, c = d["sample"], d["maxc"]
+    arg = np.array(smp) if d.get("as_array") else list(smp)
+    r1 = call(SI.sample_to_orbit, arg)
+    r2 = call(SI.sample_to_event, arg, c)
+    out = []
+    if r1[0] != "Ok" or [int(x) for x in r1[1]] != sorted([x for x in smp if x], reverse=True):
+        out.append(("sample_to_orbit:wrong", "sample_to_orbit(%s) = %s" % (smp, r1[1:])))
+    want = sum(smp) if max(smp) <= c else None
+    if r2[0] != "Ok" or (r2[1] is None) != (want is None) or (want is not None and int(r2[1]) != want):
+        out.append(("sample_to_event:wrong", "sample_to_event(%s, %d) = %s, expected %r" % (smp, c, r2[1:], want)))
     return out
 
 
@@ -591,18 +667,19 @@ def pred_sample(d):
     """postselect / modes_from_counts / to_subgraphs"""
     samples, lo, hi, g = d["samples"], d["lo"], d["hi"], d["graph"]
     out = []
-    ps = SA.postselect(copy.deepcopy(samples), lo, hi)
+    arr = (lambda x: [np.array(s) for s in x]) if d.get("as_array") else copy.deepcopy
+    ps = [list(int(v) for v in s) for s in SA.postselect(arr(samples), lo, hi)]
     if ps != [s for s in samples if lo <= sum(s) <= hi]:
         out.append(("postselect:wrong", "postselect(%s,%d,%d) = %s" % (samples, lo, hi, ps)))
     for s in samples:
-        mfc = SA.modes_from_counts(list(s))
+        mfc = SA.modes_from_counts(np.array(s) if d.get("as_array") else list(s))
         ref = [i for i, cnt in enumerate(s) for _ in range(cnt)]
         if list(mfc) != ref:
             out.append(("modes_from_counts:wrong", "modes_from_counts(%s) = %s" % (s, mfc)))
     G = mkgraph(g)
     n = len(g["nodes"])
     ok_samples = [s for s in samples if len(s) == n]
-    r = call(SA.to_subgraphs, copy.deepcopy(ok_samples), G)
+    r = call(SA.to_subgraphs, arr(ok_samples), G)
     if r[0] != "Ok":
         out.append(("to_subgraphs:raises", "to_subgraphs raised %s" % (r[1:],)))
     else:
@@ -662,10 +739,10 @@ def pred_grow(d):
     g, cl, sel, draws = d["graph"], d["clique"], d["sel"], d["draws"]
     G = mkgraph(g)
     adj = adjacency(g)
-    arg = list(cl)
+    arg = box(d, cl)
     r = call(CL.grow, arg, G, *ns(d), draws=draws)
     out = []
-    if arg != list(cl) or not _graph_unchanged(G, g):
+    if list(arg) != list(cl) or not _graph_unchanged(G, g):
         out.append(("grow:mutates-input", "grow changed its arguments"))
     cs = set(cl)
     invalid = (not cs <= set(g["nodes"])) or (not bf_clique(adj, cs)) or _weights_bad(g, sel)
@@ -710,10 +787,10 @@ def pred_swap(d):
     g, cl, sel, draws = d["graph"], d["clique"], d["sel"], d["draws"]
     G = mkgraph(g)
     adj = adjacency(g)
-    arg = list(cl)
+    arg = box(d, cl)
     r = call(CL.swap, arg, G, *ns(d), draws=draws)
     out = []
-    if arg != list(cl) or not _graph_unchanged(G, g):
+    if list(arg) != list(cl) or not _graph_unchanged(G, g):
         out.append(("swap:mutates-input", "swap changed its arguments"))
     cs = set(cl)
     invalid = (not cs <= set(g["nodes"])) or (not bf_clique(adj, cs)) or _weights_bad(g, sel)
@@ -760,10 +837,10 @@ def pred_shrink(d):
     g, sub, sel, draws = d["graph"], d["sub"], d["sel"], d["draws"]
     G = mkgraph(g)
     adj = adjacency(g)
-    arg = list(sub)
+    arg = box(d, sub)
     r = call(CL.shrink, arg, G, *ns(d), draws=draws)
     out = []
-    if arg != list(sub) or not _graph_unchanged(G, g):
+    if list(arg) != list(sub) or not _graph_unchanged(G, g):
         out.append(("shrink:mutates-input", "shrink changed its arguments"))
     ss = set(sub)
     invalid = (not ss <= set(g["nodes"])) or _weights_bad(g, sel)
@@ -827,6 +904,23 @@ def pred_csearch(d):
         out.append(("clique.search:not-a-clique", "search(%s) = %s is not a clique (edges %s)" % (cl, res, g["edges"])))
     if len(rs) < len(cs):
         out.append(("clique.search:smaller", "search(%s) = %s is smaller than its input clique" % (cl, res)))
+    if not out:
+        # the documented procedure: grow, swap, repeat with the same selection rule until nothing changes or the
+        # iterations are used up — replayed with the implementation's own grow / swap on the same oracle stream
+        def compose():
+            o = Oracle(draws)
+            with patched(o):
+                cur, it = list(cl), iters
+                while True:
+                    grown = CL.grow(cur, G, *ns(d))
+                    swapped = CL.swap(grown, G, *ns(d))
+                    it -= 1
+                    if set(grown) == set(swapped) or it == 0:
+                        return list(swapped)
+                    cur = swapped
+        rc = call(compose)
+        if rc[0] == "Ok" and sorted(rc[1]) != res:
+            out.append(("clique.search:not-grow-swap-iteration", "search(%s, iterations=%d, %s) = %s, but iterating grow and swap with the same rule and random draws gives %s (edges %s, weights %s)" % (cl, iters, sel["mode"], res, sorted(rc[1]), g["edges"], sel.get("w"))))
     return out
 
 
@@ -889,10 +983,10 @@ def pred_resize(d):
     g, sub, lo, hi, sel, draws = d["graph"], d["sub"], d["lo"], d["hi"], d["sel"], d["draws"]
     G = mkgraph(g)
     adj = adjacency(g)
-    arg = list(sub)
+    arg = box(d, sub)
     r = call(SG.resize, arg, G, lo, hi, *ns(d), draws=draws)
     out = []
-    if arg != list(sub) or not _graph_unchanged(G, g):
+    if list(arg) != list(sub) or not _graph_unchanged(G, g):
         out.append(("resize:mutates-input", "resize changed its arguments"))
     if resize_invalid(g, sub, lo, hi, sel):
         if r[0] != "ValueError":
@@ -1038,13 +1132,17 @@ PREDS = {
     "card": pred_card, "event_card": pred_event_card, "orbits": pred_orbits, "convert": pred_convert,
     "o2s": pred_o2s, "e2s": pred_e2s, "sample": pred_sample, "is_clique": pred_is_clique, "c01": pred_c01,
     "grow": pred_grow, "swap": pred_swap, "shrink": pred_shrink, "resize": pred_resize, "search": pred_search,
-    "update": pred_update, "csearch": pred_csearch, "mc": pred_mc, "pexact": pred_pexact, "fv": pred_fv, "fvs": pred_fvs,
+    "update": pred_update, "csearch": pred_csearch, "s2o": pred_s2o, "mc": pred_mc, "pexact": pred_pexact, "fv": pred_fv, "fvs": pred_fvs,
 }
 
 
 def run_pred(ctx, kind, data, emit=True):
     try:
-        fails = PREDS[kind](data)
+        try:
+            with time_limit(90.0):
+                fails = PREDS[kind](data)
+        except Hang:
+            fails = [("%s:hangs" % kind, "the implementation did not return within 90 s on this input")]
     except Exception as e:  # noqa: BLE001 — the implementation returned something the predicate cannot even inspect
         fails = [("%s:malformed-result" % kind, "checking the result failed with %s: %s" % (type(e).__name__, str(e)[:200]))]
     if emit:
@@ -1157,7 +1255,7 @@ def gen_sub(rng, g, lo=0):
 def gen_clique_case(rng, kind, max_n, labels):
     g = gen_graph(rng, max_n=max_n, labels=labels, loops=rng.random() < 0.15)
     sel = gen_sel(rng, g, modes=("uniform", "weight") if kind == "shrink" else ("uniform", "degree", "weight"))
-    d = {"graph": g, "sel": sel, "draws": gen_draws(rng), "dflt": rng.random() < 0.4}
+    d = {"graph": g, "sel": sel, "draws": gen_draws(rng), "dflt": rng.random() < 0.4, "container": rng.choice(["list", "list", "tuple", "array"])}
     if kind in ("grow", "swap"):
         cl = find_clique(rng, g)
         r = rng.random()
@@ -1191,7 +1289,8 @@ def gen_resize_case(rng, max_n, labels):
         lo, hi = rng.randint(0, n + 1), rng.randint(0, n + 1)
     if rng.random() < 0.03:
         sub = sub + [fresh_label(g)]
-    return {"graph": g, "sub": sub, "lo": lo, "hi": hi, "sel": sel, "draws": gen_draws(rng, 24), "dflt": rng.random() < 0.4}
+    return {"graph": g, "sub": sub, "lo": lo, "hi": hi, "sel": sel, "draws": gen_draws(rng, 24), "dflt": rng.random() < 0.4,
+            "container": rng.choice(["list", "list", "tuple", "array"])}
 
 
 def gen_search_case(rng, max_n, labels):
@@ -1409,10 +1508,18 @@ def correspondence(ctx):
         m = rng.randint(1, 12)
         s = [rng.choice([0, 0, 1, 1, 2, 3, 5]) for _ in range(m)]
         c = rng.randint(0, 5)
-        impl = (list(SI.sample_to_orbit(list(s))), SI.sample_to_event(list(s), c))
+        try:
+            impl = (list(must(SI.sample_to_orbit, list(s))), must(SI.sample_to_event, list(s), c))
+        except ImplFailure:
+            run_pred(ctx, "s2o", {"sample": s, "maxc": c})
+            continue
         B.add("orbit", "(sample_to_orbit %s, sample_to_event %s %d)" % (L(s), L(s), c), impl, {"sample": s, "maxc": c})
     for n in range(0, ctx.budget(19, 28)):
-        impl = [list(o) for o in SI.orbits(n)]
+        try:
+            impl = [list(o) for o in must(lambda nn: list(SI.orbits(nn)), n)]
+        except ImplFailure:
+            run_pred(ctx, "orbits", {"photons": n})
+            continue
         B.add("orbits", "(orbits %d, orbits_finished %d)" % (n, n), impl, {"photons": n})
     for _ in range(70 * scale):
         o = gen_orbit(rng)
@@ -1450,8 +1557,13 @@ def correspondence(ctx):
         samples = gen_samples(rng, n, rng.randint(1, 5))
         lo, hi = rng.randint(0, 3), rng.randint(2, 8)
         G = mkgraph(g)
-        impl = (SA.postselect(copy.deepcopy(samples), lo, hi), [list(SA.modes_from_counts(list(s))) for s in samples],
-                [sorted(x) for x in SA.to_subgraphs(copy.deepcopy(samples), G)])
+        try:
+            impl = (must(SA.postselect, copy.deepcopy(samples), lo, hi), [list(must(SA.modes_from_counts, list(s))) for s in samples],
+                    [sorted(x) for x in must(SA.to_subgraphs, copy.deepcopy(samples), G)])
+        except (ImplFailure, TypeError):
+            if not run_pred(ctx, "sample", {"samples": samples, "lo": lo, "hi": hi, "graph": g}):
+                ctx.counterexample("sample:raises", "postselect / modes_from_counts / to_subgraphs failed on %s" % (samples,), {"check": "sample", "samples": samples, "lo": lo, "hi": hi, "graph": g})
+            continue
         B.add("sample", "(postselect %s %d %d, map modes_from_counts %s, map (to_subgraph %s) %s)" % (LL(samples), lo, hi, LL(samples), L(g["nodes"]), LL(samples)),
               impl, {"samples": samples, "lo": lo, "hi": hi, "graph": g})
 
@@ -1461,7 +1573,7 @@ def correspondence(ctx):
         sub = gen_sub(rng, g)
         G = mkgraph(g)
         B.add("is_clique", "(is_clique (adj_of %s) %s, is_clique_pre_eefbefe (adj_of %s) %s)" % (E(g), L(sorted(set(sub))), E(g), L(sorted(set(sub)))),
-              bool(CL.is_clique(G.subgraph(sub))), {"graph": g, "sub": sub})
+              call(lambda: bool(CL.is_clique(G.subgraph(sub))))[1:2], {"graph": g, "sub": sub})
     for _ in range(30 * scale):
         g = gen_graph(rng, max_n=8, labels="small")
         cl = find_clique(rng, g)
@@ -1567,7 +1679,7 @@ def correspondence(ctx):
             if kind == "orbit":
                 mo = (list(mv[0]), mv[1][1] if isinstance(mv[1], tuple) else None)
                 agree = (impl[0], impl[1]) == mo
-                pk = None
+                pk = "s2o"
             elif kind == "orbits":
                 agree = impl == [list(o) for o in mv[0]] and mv[1] is True
             elif kind in ("card", "event_card"):
@@ -1586,6 +1698,7 @@ def correspondence(ctx):
                 agree = (impl[0] == [list(x) for x in mv[0]] and impl[1] == [list(x) for x in mv[1]] and impl[2] == [list(x) for x in mv[2]])
             elif kind == "is_clique":
                 # mv = (source: self-loops not counted, OLD variant before eefbefe: counted)
+                impl = impl[0] if impl and isinstance(impl[0], bool) else impl
                 agree = impl == mv[0]
                 if not agree and impl == mv[1]:
                     old_variant_hits.append("is_clique counts self-loops again (variant before commit eefbefe)")
@@ -1748,7 +1861,10 @@ def search(ctx):
         g = gen_graph(rng, max_n=12, labels="anytype")
         n = len(g["nodes"])
         go("sample", {"samples": gen_samples(rng, n, rng.randint(1, 5)) + ([[1] * (n + 1)] if rng.random() < 0.1 else []),
-                      "lo": rng.randint(0, 3), "hi": rng.randint(2, 9), "graph": g})
+                      "lo": rng.randint(0, 3), "hi": rng.randint(2, 9), "graph": g, "as_array": rng.random() < 0.3})
+    for _ in range(20 * scale):
+        m = rng.randint(1, 14)
+        go("s2o", {"sample": [rng.choice([0, 0, 0, 1, 1, 2, 3, 5, 9]) for _ in range(m)], "maxc": rng.randint(0, 9), "as_array": rng.random() < 0.4})
     # ---- deterministic small sweeps (boundaries of every guard and comparison)
     for k in range(0, 5):
         for m in range(1, 5):
@@ -1825,7 +1941,7 @@ def search(ctx):
     for _ in range(12 * scale):
         m = rng.randint(1, 6)
         smp = gen_samples(rng, m, rng.randint(1, 12))
-        d = {"samples": smp, "dflt": rng.random() < 0.5}
+        d = {"samples": smp, "dflt": rng.random() < 0.5, "as_array": rng.random() < 0.3}
         if rng.random() < 0.5:
             pool = [sorted([x for x in s0 if x], reverse=True) for s0 in smp] + [gen_orbit(rng, 5) for _ in range(2)]
             d["orbits"] = [rng.choice(pool) for _ in range(rng.randint(0, 5))]
